@@ -22,6 +22,33 @@ def int_case(draw, names, min_n=24, max_n=64):
             "seed": draw(st.integers(0, 2 ** 32 - 1)), "tone": draw(st.booleans())}
 
 
+def int_enum(names):
+    """every (callable, integer type, noise/tone) combination: 3 records each (quick) / 30 (thorough), independent of the seed"""
+    def gen(tier):
+        reps = 3 if tier == "quick" else 30
+        k = 0
+        for fn in names:
+            for idt in IDTYPES:
+                for tone in (False, True):
+                    for rep in range(reps):
+                        k += 1
+                        yield {"fn": fn, "idtype": idt[0], "lo": idt[1], "hi": idt[2], "n": 24 + (5 * k + 11 * rep) % 41,
+                               "seed": 104729 * k + rep, "tone": tone}
+    return gen
+
+
+def single_enum(names):
+    def gen(tier):
+        reps = 8 if tier == "quick" else 100
+        k = 0
+        for fn in names:
+            for cplx in (False, True):
+                for rep in range(reps):
+                    k += 1
+                    yield {"fn": fn, "n": 24 + (5 * k + 11 * rep) % 41, "seed": 15485863 * k + rep, "complex": cplx}
+    return gen
+
+
 def samples(case):
     """(narrow-typed array, the same values as float64)"""
     rng = np.random.default_rng(case["seed"])
@@ -138,6 +165,21 @@ LAYOUTS = ["strided", "realpart", "column", "negstride", "fortran_row", "nplist"
 def layout_case(draw, names, min_n=24, max_n=64):
     return {"fn": draw(st.sampled_from(list(names))), "layout": draw(st.sampled_from(LAYOUTS)), "n": draw(st.integers(min_n, max_n)),
             "seed": draw(st.integers(0, 2 ** 32 - 1)), "complex": draw(st.booleans())}
+
+
+def layout_enum(names):
+    """every (callable, layout, real/complex) combination, 2 records each in the quick tier and 24 in the thorough one:
+    which combinations are visited does not depend on the seed"""
+    def gen(tier):
+        reps = 2 if tier == "quick" else 24
+        k = 0
+        for fn in names:
+            for lay in LAYOUTS:
+                for cplx in (False, True):
+                    for rep in range(reps):
+                        k += 1
+                        yield {"fn": fn, "layout": lay, "n": 24 + (7 * k + 3 * rep) % 41, "seed": 7919 * k + rep, "complex": cplx}
+    return gen
 
 
 def layout_pair(case):
